@@ -408,6 +408,100 @@ theorem closed_run (c : Cfg) (sched : List Tid) : ∀ g : G, g.sh.closed = true 
 theorem run_append (c : Cfg) (g : G) (s1 s2 : List Tid) : run c g (s1 ++ s2) = run c (run c g s1) s2 := by
   simp [run, List.foldl_append]
 
+/-- requests never move the start thread -/
+theorem reqStep_pc (s : Sh) (r : Req) (dpc : Nat) : (reqStep s r dpc).1.pc = s.pc := by
+  cases r with
+  | cast => simp only [reqStep]; split <;> rfl
+  | stop => rfl
+  | kill => rfl
+  | drain =>
+    simp only [reqStep]
+    split
+    · rfl
+    · split <;> rfl
+    · split <;> rfl
+
+/-- once the marker is out, no other thread can add work for the actor's task -/
+theorem reqStep_sealed (s : Sh) (r : Req) (dpc : Nat) (hc : s.closed = true) (hm : s.markerSent = true) :
+    (reqStep s r dpc).1.closed = true ∧ (reqStep s r dpc).1.markerSent = true ∧
+    (reqStep s r dpc).1.queue = s.queue ∧ (reqStep s r dpc).1.pc = s.pc := by
+  cases r with
+  | cast => simp [reqStep, hc, hm]
+  | stop => simp [reqStep, hc, hm]
+  | kill => simp [reqStep, hc, hm]
+  | drain =>
+    simp only [reqStep]
+    split
+    · simp [hm]
+    · split <;> simp [hc, hm]
+    · simp [hc, hm]
+
+theorem step_sealed (c : Cfg) (g : G) (i : Nat) (hc : g.sh.closed = true) (hm : g.sh.markerSent = true) :
+    (step c g (.t i)).sh.closed = true ∧ (step c g (.t i)).sh.markerSent = true ∧
+    measure (step c g (.t i)).sh = measure g.sh := by
+  simp only [step]
+  split
+  · exact ⟨hc, hm, rfl⟩
+  · split
+    · exact ⟨hc, hm, rfl⟩
+    · rename_i th _ _ r rest _
+      have h := reqStep_sealed g.sh r th.dpc hc hm
+      exact ⟨h.1, h.2.1, by simp [measure, h.2.2.1, h.2.2.2]⟩
+
+/-- **Fair termination**: once the marker is emitted, ANY continuation of the schedule that gives
+the actor's task at least `measure` steps — however the other threads' steps are interleaved —
+ends the actor's task. -/
+theorem sealed_run_ends (c : Cfg) (sched : List Tid) : ∀ g : G, Inv c g.sh → g.sh.closed = true →
+    g.sh.markerSent = true → measure g.sh ≤ sched.count .start → (run c g sched).sh.pc.alive = false := by
+  induction sched with
+  | nil =>
+    intro g _ _ _ hn
+    simp only [List.count_nil, Nat.le_zero] at hn
+    cases hp : g.sh.pc <;> simp [measure, hp, Pc.rank] at hn <;> simp [run, hp, Pc.alive]
+  | cons t rest ih =>
+    intro g hI hc hm hn
+    simp only [run, List.foldl_cons]
+    cases t with
+    | t i =>
+      have hs := step_sealed c g i hc hm
+      have hn' : measure (step c g (.t i)).sh ≤ rest.count .start := by
+        rw [hs.2.2]; simpa [List.count_cons] using hn
+      exact ih _ (inv_step c g _ hI) hs.1 hs.2.1 hn'
+    | start =>
+      have hfr := startStep_frame c g.sh
+      cases hal : g.sh.pc.alive
+      · -- already over: stays over
+        have hdead : ∀ (sch : List Tid) (g' : G), g'.sh.pc.alive = false → (run c g' sch).sh.pc.alive = false := by
+          intro sch
+          induction sch with
+          | nil => intro g' h'; exact h'
+          | cons t' r' ih' =>
+            intro g' h'
+            simp only [run, List.foldl_cons]
+            apply ih'
+            cases t' with
+            | start => simp only [step]; rw [startStep_dead c g'.sh h']; exact h'
+            | t j =>
+              simp only [step]
+              split
+              · exact h'
+              · split
+                · exact h'
+                · rename_i th _ _ r rest' _
+                  have : (reqStep g'.sh r th.dpc).1.pc = g'.sh.pc := reqStep_pc g'.sh r th.dpc
+                  simp only [this]; exact h'
+        apply hdead
+        simp only [step]; rw [startStep_dead c g.sh hal]; exact hal
+      · have hq : none ∈ g.sh.queue := hI.pending hm hal
+        have hlt := startStep_measure c g.sh hal (fun _ => Or.inl (fun h => by rw [h] at hq; simp at hq))
+        have hn' : measure (step c g .start).sh ≤ rest.count .start := by
+          simp only [step]
+          simp only [List.count_cons, beq_self_eq_true, if_true] at hn
+          omega
+        refine ih _ (inv_step c g _ hI) ?_ ?_ hn'
+        · simp only [step]; rw [hfr.2.1]; exact hc
+        · simp only [step]; rw [hfr.1]; exact hm
+
 theorem inv_run (c : Cfg) (sched : List Tid) : ∀ g : G, Inv c g.sh → Inv c (run c g sched).sh := by
   induction sched with
   | nil => intro g h; exact h
